@@ -9,7 +9,9 @@
 EXTENDS MinerRegistry, Json
 
 CONSTANTS Depth,     \* 0: state-space exploration; > 0: generate histories of this length
-          MaxOps     \* exploration: bound on the number of accepted transactions
+          MaxOps,    \* exploration: bound on the number of accepted transactions
+          Seeded     \* BOOLEAN: start from a registry holding proposer 1 (account 1) and validator 2 (account 2),
+                     \* each applied in its own block, and generate only non-apply transactions after that
 
 Ids == {1, 2}
 Accounts == {1, 2, 3}
@@ -29,11 +31,14 @@ VARIABLES R, bal, escrow, acct, hist, nOps
 vars == <<R, bal, escrow, acct, hist, nOps>>
 (* acct: per id the running applied + added - refunded of accepted transactions *)
 
-Init == /\ R = [i \in Ids |-> Absent]
-        /\ bal = [a \in Accounts |-> Start]
+SeedTx1 == [kind |-> "Apply", id |-> 1, type |-> 1, stake |-> 2000, account |-> 1, source |-> 1]
+SeedTx2 == [kind |-> "Apply", id |-> 2, type |-> 0, stake |-> 401, account |-> 2, source |-> 2]
+Init == /\ R = IF Seeded THEN Post(Post([i \in Ids |-> Absent], SeedTx1), SeedTx2) ELSE [i \in Ids |-> Absent]
+        /\ bal = IF Seeded THEN [a \in Accounts |-> IF a = 1 THEN Start - 2000 ELSE IF a = 2 THEN Start - 401 ELSE Start]
+                  ELSE [a \in Accounts |-> Start]
         /\ escrow = 0
-        /\ acct = [i \in Ids |-> 0]
-        /\ hist = <<>>
+        /\ acct = IF Seeded THEN [i \in Ids |-> IF i = 1 THEN 2000 ELSE 401] ELSE [i \in Ids |-> 0]
+        /\ hist = IF Seeded /\ Depth > 0 THEN <<[tx |-> SeedTx1, nb |-> TRUE], [tx |-> SeedTx2, nb |-> TRUE]>> ELSE <<>>
         /\ nOps = 0
 
 Do(tx, nb) ==
@@ -51,6 +56,7 @@ Do(tx, nb) ==
 Next == \E tx \in Alphabet, nb \in BOOLEAN :
           /\ (Depth = 0 => nb)
           /\ (Depth = 0 => nOps < MaxOps)
+          /\ (Seeded => tx.kind # "Apply")
           /\ Do(tx, nb)
 Spec == Init /\ [][Next]_vars
 
